@@ -436,7 +436,9 @@ func GenHistory(r *rand.Rand, o GenOpts) ([]Op, Universe) {
 	if total == 0 {
 		gens[0].w, total = 1, 1
 	}
-	for len(g.ops) < n {
+	// a swarm selection can leave only generators that cannot act in the current state (e.g. only
+	// symlinks and nothing to link to): bounded attempts, then the history simply stays shorter
+	for tries := 0; len(g.ops) < n && tries < 20*n+100; tries++ {
 		k := r.IntN(total)
 		for _, x := range gens {
 			if k < x.w {
